@@ -826,7 +826,7 @@ theorem uq_lvu_pipe {X : SchemaX} {o : VOpts} (G : uq_Glob X o) : ∀ fuel, uq_L
   induction fuel using Nat.strongRecOn with
   | _ fuel ih =>
     intro sk ks cx1 cx2 cx3 hv target p hc hok
-    have F := level_facts X o G.hop G.hq fuel cx1 cx2 cx3 sk ks hv.sane hv.good hv.len
+    have F := level_facts X o G.hop G.hq fuel cx1 cx2 cx3 sk ks hv.sane hv.good hv.len (fun k hk => G.hio k (hv.top k hk))
     exact uq_inner G ih hv F target p sk hc hok (fun _ h => h) hv.sane.kinds hv.sane.nodup (Or.inl F.sel)
 
 /-! ## (C) the tuple of a completed list entry is the tuple of the specification -/
